@@ -756,10 +756,31 @@ func (d *driver) determinismSelfTest() map[string]any {
 			}(r)
 		}
 		wg.Wait()
+		// a run that was discarded by the heap safety limit (all-zero hash) in one process may
+		// have gone through in the other: when that limit strikes depends on the garbage collector
+		if !strings.HasPrefix(logs[0], "ERR") && !strings.HasPrefix(logs[1], "ERR") {
+			a, b := strings.Split(logs[0], "\n"), strings.Split(logs[1], "\n")
+			if len(a) == len(b) {
+				for i := range a {
+					if strings.Contains(a[i], " 0000000000000000 ") || strings.Contains(b[i], " 0000000000000000 ") {
+						a[i], b[i] = "discarded", "discarded"
+					}
+				}
+				logs[0], logs[1] = strings.Join(a, "\n"), strings.Join(b, "\n")
+			}
+		}
 		same := logs[0] == logs[1] && logs[0] != "" && !strings.HasPrefix(logs[0], "ERR")
 		res[spec.Name] = map[string]any{"runs_compared": m, "identical_event_hashes": same}
 		if !same {
-			d.infra("determinism self-test failed for phase %s: two fresh processes disagree on the event hashes of the same %d runs (%s | %s)", spec.Name, m, trunc(logs[0], 120), trunc(logs[1], 120))
+			a, b := strings.Split(logs[0], "\n"), strings.Split(logs[1], "\n")
+			first := "(one log is shorter)"
+			for i := 0; i < len(a) && i < len(b); i++ {
+				if a[i] != b[i] {
+					first = fmt.Sprintf("first difference: %q vs %q", a[i], b[i])
+					break
+				}
+			}
+			d.infra("determinism self-test failed for phase %s: two fresh processes disagree on the event hashes of the same %d runs; %s (%s | %s)", spec.Name, m, first, trunc(logs[0], 120), trunc(logs[1], 120))
 		}
 	}
 	return res
